@@ -61,6 +61,13 @@ impl Config {
         }
 
         let n_layers: usize = self.n_layers.to_bigint().try_into()?;
+        if self.fri_step_sizes.len() < n_layers || self.inner_layers.len() < n_layers - 1 {
+            return Err(Error::InvalidLayersLength {
+                n_layers,
+                step_sizes: self.fri_step_sizes.len(),
+                inner_layers: self.inner_layers.len(),
+            });
+        }
         let mut sum_of_step_sizes = Felt::ZERO;
         let mut log_input_size = self.log_input_size;
 
@@ -108,6 +115,8 @@ pub enum Error {
     OutOfBounds { min: u64, max: u64 },
     #[error("invalid first fri step")]
     FirstFriStepInvalid,
+    #[error("{n_layers} layers need {n_layers} step sizes and one fewer inner layers, got {step_sizes} and {inner_layers}")]
+    InvalidLayersLength { n_layers: usize, step_sizes: usize, inner_layers: usize },
     #[error("invalid value for column count, expected {expected}, got {actual}")]
     InvalidColumnCount { expected: Felt, actual: Felt },
     #[error("log input size mismatch, expected {expected}, got {actual}")]
@@ -128,6 +137,8 @@ pub enum Error {
     OutOfBounds { min: u64, max: u64 },
     #[error("invalid first fri step")]
     FirstFriStepInvalid,
+    #[error("{n_layers} layers need {n_layers} step sizes and one fewer inner layers, got {step_sizes} and {inner_layers}")]
+    InvalidLayersLength { n_layers: usize, step_sizes: usize, inner_layers: usize },
     #[error("invalid value for column count, expected {expected}, got {actual}")]
     InvalidColumnCount { expected: Felt, actual: Felt },
     #[error("log input size mismatch, expected {expected}, got {actual}")]
